@@ -313,7 +313,7 @@ def shard(ctx, shard_no, nshards, n_random, small_stride):
 
 def run(ctx):
     if ctx.tier == 'quick':
-        core.run_sharded(ctx, __name__, 'shard', 1, (1200, 40))
+        core.run_sharded(ctx, __name__, 'shard', 4, (350, 40))
         ctx.exhaustive['small-grammar'] = False
     else:
         core.run_sharded(ctx, __name__, 'shard', getattr(ctx, 'shards_override', None) or 16, (10000, 1))
